@@ -900,7 +900,7 @@ class Ratfun(object):
             if o == 1:
                 for n in range(m + 1, len(R)):
                     qp2 = QP[n]
-                    if not qp.is_conjugate_pair(qp2):
+                    if O[n] != 1 or R[n] is None or not qp.is_conjugate_pair(qp2):
                         continue
 
                     # The residues are complex conjugates but this
